@@ -21,7 +21,6 @@ use crate::{
 #[allow(unused_imports)] // Import is indeed used.
 use num_traits::Float;
 
-use super::rem_euclid_f64;
 
 impl Epoch {
     /// Returns the minimum of the two epochs.
@@ -249,13 +248,19 @@ impl Epoch {
     /// You _probably_ do not want to use this. You probably either want `weekday()` or `weekday_utc()`.
     /// Several time scales do _not_ have a reference day that's on a Monday, e.g. BDT.
     pub fn weekday_in_time_scale(&self, time_scale: TimeScale) -> Weekday {
-        (rem_euclid_f64(
-            self.to_duration_in_time_scale(time_scale)
-                .to_unit(Unit::Day),
-            Weekday::DAYS_PER_WEEK,
-        )
-        .floor() as u8)
-            .into()
+        // Count the whole days with integers: a floating point number of days rounds up to the next day
+        // in the last microsecond(s) of a day.
+        let (sign, days, hours, minutes, seconds, milliseconds, microseconds, nanoseconds) =
+            self.to_duration_in_time_scale(time_scale).decompose();
+        let mut days = days as i64;
+        if sign < 0 {
+            // Round toward the past: a partial day before the reference epoch is in the previous day.
+            days = -days;
+            if hours + minutes + seconds + milliseconds + microseconds + nanoseconds > 0 {
+                days -= 1;
+            }
+        }
+        (days.rem_euclid(Weekday::DAYS_PER_WEEK as i64) as u8).into()
     }
 
     #[must_use]
